@@ -110,7 +110,8 @@ func nonceZeroAtom(a Atom) (isZero bool, ok bool) {
 		}
 	case "cmp":
 		// the byte-loop form: some byte of the nonce is known to be non-zero
-		if a.Op == "!=" && a.Y != nil && a.Y.Op == "Const" && a.Y.S == "0" && a.X != nil && a.X.Op == "Elem" && len(a.X.Args) > 0 {
+		if a.Op == "!=" && a.Y != nil && a.Y.Op == "Const" && a.Y.S == "0" && a.X != nil && a.X.Op == "Elem" && len(a.X.Args) == 2 && strings.HasPrefix(a.X.Args[1].String(), "(RangeIdx#") {
+			// (the index is the counter of a range loop over the array: any byte, not a fixed one)
 			if b := a.X.Args[0]; b != nil && (strings.HasSuffix(b.String(), ".nonce)") || strings.HasSuffix(b.String(), ".nonce))")) {
 				return false, true
 			}
